@@ -101,6 +101,8 @@ def norm_fn(f, local):
     for i, p in enumerate(f.get("params") or []):
         if p["pat"]["k"] == "Bind":
             _PARAM[p["pat"]["name"]] = "$%d" % i
+        else:
+            npat(p["pat"])       # a destructuring parameter binds its variables before the body (an async fn does the same with a leading `let`)
     return norm(f["body"], local)
 
 
@@ -144,6 +146,10 @@ def norm(e, local):
                 if s["pat"]["k"] == "Bind" and s["init"] is not None and s["init"]["k"] == "Local" and s["init"]["name"] == s["pat"]["name"]:
                     if s["pat"].get("var") is not None:
                         _ALPHA[s["pat"]["var"]] = _alpha(s["init"].get("var"), s["init"]["name"])
+                    continue
+                # `let (a, b) = __argN;` — how an async fn destructures a pattern parameter: the sync twin does it in its signature
+                if s["pat"]["k"] != "Bind" and s["init"] is not None and s["init"]["k"] == "Local" and s["init"]["name"] in _PARAM and s["init"]["name"].startswith("__arg"):
+                    npat(s["pat"])
                     continue
                 stmts.append(("let", npat(s["pat"]), norm(s["init"], local), norm(s["els"], local)))
             else:
